@@ -151,7 +151,7 @@ pub(crate) mod __verif_k {
         let r = call(Builtin::Int, &[o], &mut gc);
         if f.is_nan() {
             // unspecified value; reaching this line without a panic is the check
-        } else if f >= 1152921504606846976.0 || f <= -1152921504606846977.0 {
+        } else if f >= 1152921504606846976.0 || f < -1152921504606846976.0 {
             match r { Err(e) => assert!(kind(&e) == 4), Ok(_) => assert!(false) }
         } else {
             match r {
@@ -172,6 +172,58 @@ pub(crate) mod __verif_k {
         match call(Builtin::Float, &[o], &mut gc) { Ok(v) => assert!(word(v) == word(o)), Err(_) => assert!(false) }
         kani::cover!(f.is_nan());
         kani::cover!(f > 1e30);
+        kani::cover!(f < -0.5 && f > -1.5);
+    }
+
+    /// contract for `Object::tag` on a value made by `Object::float` (decided on the real `tag` by c15_tag_of_every_shape /
+    /// c15_float_roundtrip): Float.  The stub ASSERTS the tag bits on the raw word, it does not assume them.  It is what makes
+    /// the harness below finish: CBMC does not fold the tag of a heap value, so with the real `tag` every arm of call_int's
+    /// `match` is explored, the text arm (`trim().parse()`) included (c14_int_of_float: not decided in 900 s).
+    pub fn tag_is_float_stub(o: Object) -> Type {
+        assert!(word(o) & 7 == 4, "tag bits of a float value");
+        Type::Float
+    }
+
+    /// int(float) for EVERY float bit pattern, with `Object::tag` replaced by its contract on float values: ArgumentError iff
+    /// the truncated value is outside [MIN_INT, MAX_INT] (f >= 2^60 or f < -2^60; -2^60 itself is MIN_INT), otherwise the integer
+    /// with |x| <= |f| < |x| + 1 and the sign of f; NaN unconstrained (4.3-11)
+    #[kani::proof]
+    #[kani::unwind(10)]
+    #[kani::stub(std::fmt::format, fmt_stub)]
+    #[kani::stub(crate::gc::GC::trace, gc_obj_stub)]
+    #[kani::stub(crate::object::Object::tag, tag_is_float_stub)]
+    fn c14_int_of_float_all_bits() {
+        let bits: u64 = kani::any();
+        let f = f64::from_bits(bits);
+        let mut gc = std::mem::ManuallyDrop::new(GC::new());
+        let o = crate::object::Object::float(f, &mut gc);
+        let r = call(Builtin::Int, &[o], &mut gc);
+        if f.is_nan() {
+            // unspecified value; reaching this line without a panic is the check
+        } else if f >= 1152921504606846976.0 || f < -1152921504606846976.0 {
+            match r { Err(e) => assert!(kind(&e) == 4, "out of range: ArgumentError"), Ok(_) => assert!(false, "out of range but a value") }
+        } else {
+            match r {
+                Ok(v) => {
+                    assert!(word(v) & 7 == 1, "an integer");
+                    let x = v.as_int();
+                    assert!(x >= MIN_INT && x <= MAX_INT);
+                    if f.abs() < 4503599627370496.0 {
+                        let xf = x as f64; // exact below 2^52
+                        assert!(xf.abs() <= f.abs() && f.abs() - xf.abs() < 1.0);
+                        assert!(x == 0 || (x < 0) == (f < 0.0));
+                    } else {
+                        // at and above 2^52 every float is an integer: the conversion is exact
+                        assert!(x as f64 == f, "exact above 2^52");
+                    }
+                }
+                Err(_) => assert!(false, "in range but an error"),
+            }
+        }
+        kani::cover!(f.is_nan());
+        kani::cover!(f == 1152921504606846976.0);
+        kani::cover!(f == 1152921504606846848.0);
+        kani::cover!(f == -1152921504606846976.0);
         kani::cover!(f < -0.5 && f > -1.5);
     }
 
